@@ -33,7 +33,8 @@ class FieldCompositeModel(FieldModel):
         # Captures whether this field was declared rand
         self.is_declared_rand = is_rand
         # Captures whether this field is being used as rand
-        self.is_used_rand = is_rand
+        # (only set for the duration of a randomize call)
+        self.is_used_rand = False
         self.rand_mode = is_rand
         self.rand_if = rand_if
         self.field_l = []
